@@ -10,7 +10,7 @@
 (***************************************************************************)
 EXTENDS Integers, Sequences, FiniteSets, TLC, Json, SequencesExt
 
-Ops == {"tell", "ask", "kill", "pkill", "watch", "unwatch", "ping", "pipe-ok", "pipe-fail", "sched-once"}
+Ops == {"tell", "ask", "kill", "pkill", "watch", "watch-both", "unwatch", "ping", "pipe-ok", "pipe-fail", "sched-once"}
 Locs == {"local", "remote"}
 Flavours == {"registered", "codec"}       \* a message type registered with the wire registry / one only the user Codec knows
 
@@ -19,9 +19,13 @@ Carries(op) == op \in {"tell", "ask", "pipe-ok", "sched-once"}
 \* which operations have a second reference parameter (forwarders)
 HasFwd(op) == op \in {"pipe-ok", "pipe-fail"}
 
-Cases == {c \in [op : Ops, target : Locs, fwd : Locs \cup {"-"}, flavour : Flavours \cup {"-"}] :
+\* history of the target's path: "fresh" = first actor ever under that path; "recreated" = an earlier actor under
+\* the same path received a message from the operator, terminated, and a new actor was spawned under the same name
+Hists == {"fresh", "recreated"}
+Cases == {c \in [op : Ops, target : Locs, fwd : Locs \cup {"-"}, flavour : Flavours \cup {"-"}, hist : Hists] :
             /\ (HasFwd(c.op) <=> c.fwd # "-")
-            /\ (Carries(c.op) <=> c.flavour # "-")}
+            /\ (Carries(c.op) <=> c.flavour # "-")
+            /\ (c.hist = "recreated" => c.op \in {"tell", "ask", "kill", "ping"} /\ c.flavour \in {"registered", "-"})}
 
 \* the observable effect, the same wherever the references point
 Expected(c) ==
@@ -29,6 +33,7 @@ Expected(c) ==
       [] c.op = "ask" -> "replied"
       [] c.op \in {"kill", "pkill"} -> "terminated"
       [] c.op = "watch" -> "notified"          \* OnKilled naming the terminated actor reaches the watcher
+      [] c.op = "watch-both" -> "both-notified" \* two watchers with the same path, one on each system
       [] c.op = "unwatch" -> "not-notified"
       [] c.op = "ping" -> "pong"
       [] c.op = "pipe-ok" -> "forwarded-message"
@@ -41,5 +46,5 @@ Next == FALSE /\ x' = x
 CaseSeq == SetToSeq(Cases)
 ASSUME JsonSerialize("cases.json", [i \in 1..Len(CaseSeq) |-> [case |-> CaseSeq[i], expected |-> Expected(CaseSeq[i])]])
 \* sanity of the matrix itself
-ASSUME \A c \in Cases : Expected(c) \in {"received", "replied", "terminated", "notified", "not-notified", "pong", "forwarded-message", "forwarded-error"}
+ASSUME \A c \in Cases : Expected(c) \in {"received", "replied", "terminated", "notified", "both-notified", "not-notified", "pong", "forwarded-message", "forwarded-error"}
 =============================================================================
